@@ -24,6 +24,8 @@ var instKinds = []instKind{
 	{"interface-with-method", "interface {X} { public function m(); }", true},
 	{"interface-empty", "interface {X} { }", true},
 	{"interface-extends", "interface {X}Base { public function m(); }\ninterface {X} extends {X}Base { }", true},
+	{"concrete-declares-abstract-method", "class {X} { abstract public function m(); public static function mk() { return new static(); } public static function mks() { return new self(); } }", true},
+	{"concrete-declares-abstract-static-method", "class {X} { abstract public static function m(); public static function mk() { return new static(); } public static function mks() { return new self(); } }", true},
 	{"concrete-control", "class {X} { public function m() { return 1; } public static function mk() { return new static(); } public static function mks() { return new self(); } }", false},
 	{"concrete-child-of-abstract-control", "abstract class {X}Base { abstract public function m(); }\nclass {X} extends {X}Base { public function m() { return 1; } public static function mk() { return new static(); } public static function mks() { return new self(); } }", false},
 }
